@@ -269,6 +269,7 @@ type GenParams struct {
 	MaxUnits, MaxStmts, MaxTables, MaxRows, MaxCols, MaxFiles, MaxPayload int
 	SimpleCols                                                            bool
 	ExactCols                                                             int // > 0: every table has exactly this many columns
+	SparseImages                                                          bool // partial row images carry only 1-3 columns
 }
 
 func randName(r *rand.Rand, n int) string {
@@ -357,6 +358,17 @@ func genRowsEv(r *rand.Rand, kind string, t *Table, gp GenParams, ts uint32) *Ev
 	}
 	n := len(t.Cols)
 	pb, pa := genPresent(r, n), genPresent(r, n)
+	if gp.SparseImages {
+		// few columns present: on a wide table the NULL bitmap of the image is shorter than one sized by the table width
+		sparse := func() []bool {
+			p := make([]bool, n)
+			for k := 0; k < 1+r.Intn(3); k++ {
+				p[r.Intn(n)] = true
+			}
+			return p
+		}
+		pb, pa = sparse(), sparse()
+	}
 	nrows := 1 + r.Intn(gp.MaxRows)
 	for i := 0; i < nrows; i++ {
 		rp := RowPair{}
